@@ -119,6 +119,10 @@ static void monitor_cb(hx_txrec *r, htp_tx_t *tx, int kind, const uint8_t *data,
                                ord, side, kind, rk, r->rank[side], (int) (r->kinds.n > 60 ? 60 : r->kinds.n), (const char *) r->kinds.p);
             }
         }
+        /* a trailer is the second header block of a message: the TRAILER hook without the HEADERS hook before it means the header block was never announced */
+        if ((kind == CB_REQ_TRAILER || kind == CB_RES_TRAILER) && r->rank[side] < 2)
+            hx_verdict_add("C05", "trailer_without_headers", "tx %d side %d: the TRAILER callback arrives although the HEADERS callback of that side never ran; kinds so far %.*s", ord, side,
+                           (int) (r->kinds.n > 60 ? 60 : r->kinds.n), (const char *) r->kinds.p);
         if (rk > r->rank[side] && tx->connp) r->rank_pos[side] = 1 + (side ? tx->connp->out_stream_offset : tx->connp->in_stream_offset);
         r->rank[side] = rk;
     }
